@@ -86,6 +86,9 @@ def cases(tier, seed):
         cs.append(dict(kind='dae', which=which, n=int(rng.integers(1, 4)), M=int(rng.integers(1, 6)), qt=['RADAU-RIGHT', 'RADAU-RIGHT', 'GAUSS', 'LOBATTO'][int(rng.integers(0, 4))],
                        nt=NODE_TYPES[int(rng.integers(0, len(NODE_TYPES)))], QI=lower[int(rng.integers(0, len(lower)))] if rng.random() < 0.6 else ['IE', 'LU', 'MIN-SR-S', 'MIN-SR-FLEX'][int(rng.integers(0, 4))],
                        k=int(rng.integers(1, 5)), dtexp=float(rng.uniform(-2.5, -0.3)), t0=float(rng.uniform(-1, 3)), seed=int(rng.integers(0, 2**31)), _cost=6))
+    for i in range(24 if tier == 'quick' else 600):
+        cs.append(dict(kind='multistep', cls=['AdamsBashforthExplicit1Step', 'BackwardEuler', 'AdamsMoultonImplicit1Step', 'AdamsMoultonImplicit2Step'][i % 4], n=int(rng.integers(1, 5)), cplx=bool(rng.random() < 0.3),
+                       nsteps=int(rng.integers(1, 9)), dtexp=float(rng.uniform(-2.5, -0.5)), t0=float(rng.uniform(-2, 5)), seed=int(rng.integers(0, 2**31)), forcing=bool(rng.random() < 0.7), _cost=4))
     alphas = [0.3, 1e-1, 1e-2, 1e-3, 1e-4, 1e-6, 1e-8]
     for i in range(60 if tier == 'quick' else 1200):
         cs.append(dict(kind='paradiag', M=int(rng.integers(1, 6)), n=int(rng.integers(1, 5)), L=int(rng.integers(1, 13)), alpha=float(alphas[int(rng.integers(0, len(alphas)))]),
@@ -470,6 +473,69 @@ def run_verlet(case, r):
     r.sample = dict(case={k: v for k, v in case.items() if not k.startswith('_')})
 
 
+def run_multistep(case, r):
+    """linear multistep sweepers: a constant-step run on a dense linear problem with forcing follows the recurrence
+    sum_i alpha_i u_{n-s+1+i} + u_{n+1} = dt * sum_i beta_i f_{n-s+1+i} + dt * beta_s f_{n+1} (start-up steps by the method the class names)"""
+    import pySDC.implementations.sweeper_classes.Multistep as MS
+    from pySDC.helpers.stats_helper import get_sorted
+    from pySDC.implementations.controller_classes.controller_nonMPI import controller_nonMPI
+    from pySDC.implementations.hooks.log_solution import LogSolution
+
+    from vf import harness_problems as hp
+
+    rng = np.random.default_rng(case['seed'])
+    cls = getattr(MS, case['cls'])
+    pp = _prob(case, rng, need_B=False)
+    A, n = np.asarray(pp['A']), case['n']
+    dt = 10 ** case['dtexp']
+    nsteps = case['nsteps']
+    r.key = f"multistep/{case['cls']}/{n}/{nsteps}"
+    tag = r.key + f' dt={dt:.3g}'
+    desc = dict(problem_class=hp.DenseLinear, problem_params=pp, sweeper_class=cls, sweeper_params={}, level_params=dict(dt=dt), step_params=dict(maxiter=1))
+    ctrl = controller_nonMPI(1, dict(logger_level=50, dump_setup=False, hook_class=[LogSolution]), desc)
+    P = ctrl.MS[0].levels[0].prob
+    u0 = P.u_init
+    u0[:] = rng.standard_normal(n) + (1j * rng.standard_normal(n) if case['cplx'] else 0)
+    t0 = case['t0']
+    uend, stats = ctrl.run(u0, t0, t0 + (nsteps - 0.5) * dt)
+    got = [np.asarray(v).copy() for _, v in get_sorted(stats, type='u', sortby='time')]
+    r.check(len(got) == nsteps, 'multistep-recurrence', f'{tag}: {len(got)} logged steps, expected {nsteps}')
+    alpha, beta = list(cls.alpha), list(cls.beta)
+    s_ = len(alpha)
+    twin = hp.DenseLinear(**pp)
+
+    def f(u, t):
+        v = twin.u_init
+        v[:] = u
+        return np.asarray(twin.eval_f(v, t)).copy()
+
+    def g(t):
+        return f(np.zeros(n, dtype=np.asarray(u0).dtype), t)
+
+    us, fs, ts = [np.asarray(u0).copy()], [f(np.asarray(u0), t0)], [t0]
+    I = np.eye(n)
+    for k in range(min(nsteps, len(got))):
+        tn = ts[-1] + dt
+        if len(us) < s_:
+            # start-up: trapezoidal rule (the only shipped multi-step class says so)
+            rhs = us[-1] + dt / 2 * fs[-1]
+            unew = np.linalg.solve(I - dt / 2 * A, rhs + dt / 2 * g(tn))
+        else:
+            rhs = sum(-alpha[i] * us[len(us) - s_ + i] for i in range(s_)) + dt * sum(beta[i] * fs[len(fs) - s_ + i] for i in range(s_))
+            unew = np.linalg.solve(I - dt * beta[-1] * A, rhs + dt * beta[-1] * g(tn)) if beta[-1] != 0 else rhs
+        e = float(np.max(np.abs(got[k] - unew)))
+        sc = max(1.0, float(np.max(np.abs(unew))))
+        r.check(e <= 1e-11 * sc, 'multistep-recurrence', f'{tag}: step {k + 1} differs from the {s_}-step recurrence (alpha {alpha}, beta {beta}) by {e:.3e}')
+        # follow the values the run actually produced, so that one wrong step is reported once
+        us.append(got[k].copy())
+        fs.append(f(got[k], tn))
+        ts.append(tn)
+    r.nontrivial = True
+    r.observe('family', 'multistep')
+    r.observe('multistep_class', case['cls'])
+    r.sample = dict(case={k: v for k, v in case.items() if not k.startswith('_')})
+
+
 def run_dae(case, r):
     """DAE project sweepers on a dense semi-explicit linear index-1 DAE: the stage equations the sweeper promises hold for the
     derivative/algebraic values it stores, the solution is u0 + dt Q U' and integrate() returns dt Q U' (reference Q, QDelta from qmat)"""
@@ -625,6 +691,9 @@ def run_case(case):
             run_sdc(case, r)
         elif case['kind'] == 'rk':
             run_rk(case, r)
+        elif case['kind'] == 'multistep':
+            with np.errstate(all='warn'):
+                run_multistep(case, r)
         elif case['kind'] == 'dae':
             with np.errstate(all='warn'):
                 run_dae(case, r)
@@ -651,7 +720,7 @@ def finalize(agg):
     fam = agg['seen'].get('family', set())
     if c.get('oracle:diagonalisation-sweep-solves-collocation', 0) == 0 or c.get('reconfigured_sweeps', 0) == 0:
         out.append('ParaDiag sweepers never reached the solve oracle (or never after a reconfiguration)')
-    for f in FAMILIES + ['verlet', 'paradiag', 'dae_fully', 'dae_semi', 'dae_rk']:
+    for f in FAMILIES + ['verlet', 'paradiag', 'dae_fully', 'dae_semi', 'dae_rk', 'multistep']:
         if f not in fam:
             out.append(f'sweeper family {f} never reached the node-value oracle')
     if len(agg['seen'].get('rk_class', ())) < 10:
